@@ -1180,24 +1180,182 @@ package gohlslib
 //@ end
 
 
-// C10: the segment's EXT-X-PROGRAM-DATE-TIME is bound to the first unit of the LEADING track only
-//@ func clientStreamProcessorMPEGTS.initializeReader$2
+// C10 / C13: MPEG-TS client path.
+// The 33-bit wrap-around arithmetic lives in mediacommon's mpegts.TimeDecoder (dependency, assumed); what is
+// checked here is that the converter feeds it exactly the leading track's first DTS as origin and then every
+// raw timestamp once, that the segment's EXT-X-PROGRAM-DATE-TIME is bound to the first unit of the LEADING
+// track only (with that unit's converted DTS), and that every unit is handed on unchanged with the converted
+// timestamps and the NTP looked up for its DTS.
+// (stated over the abstraction "the unwrapping decoder is consulted", not over the field that holds it; the
+// memory-safety half, which has to name the field, is the separate unit #safety)
+//@ func clientTimeConvMPEGTS.initialize
 //@   props C10
 //@   nosafety
 //@   noframe
+//@   modifies *ts
+//@   ensures calls("mpegts.TimeDecoder.Decode") == 1 && callarg("mpegts.TimeDecoder.Decode", 0, 1) == old(ts.startDTS) && ts.startDTS == old(ts.startDTS)
+//@ end
+
+//@ func clientTimeConvMPEGTS.initialize#safety
+//@   props C10 C13
+//@   modifies ts.td, ts.chLeadingNTPReceived
+//@   ensures ts.td != nil && fresh(ts.td)
+//@ end
+
+//@ func clientTimeConvMPEGTS.convert
+//@   props C10 C13
+//@   nosafety
+//@   noframe
+//@   requires unheld(&ts.mutex)
+//@   ensures calls("mpegts.TimeDecoder.Decode") == 1 && callarg("mpegts.TimeDecoder.Decode", 0, 1) == v
+//@   ensures result == callres("mpegts.TimeDecoder.Decode", 0)
+//@ end
+
+//@ func clientTimeConvMPEGTS.convert#safety
+//@   props C10 C13
+//@   requires unheld(&ts.mutex) && ts.td != nil
+//@   modifies *ts.td
+//@   ensures callarg("mpegts.TimeDecoder.Decode", 0, 0) == ts.td
+//@ end
+
+//@ func clientTimeConvMPEGTS.setNTP
+//@   props C10 C13
+//@   requires unheld(&ts.mutex)
+//@   modifies ts.ntpAvailable, ts.ntpValue, ts.ntpTimestamp
+//@   ensures ts.ntpAvailable && ts.ntpTimestamp == timestamp && ts.ntpValue == value
+//@ end
+
+//@ func clientTimeConvMPEGTS.getNTP
+//@   props C10 C13
+//@   requires unheld(&ts.mutex) && ctx != nil
+//@   ensures result != nil ==> old(ts.ntpAvailable)
+//@   ensures result != nil ==> *result == old(ts.ntpValue) + timestampToDuration(timestamp - old(ts.ntpTimestamp), 90000)
+//@   ensures result != nil ==> fresh(result)
+//@ end
+
+//@ func clientTimeConvMPEGTS.setLeadingNTPReceived
+//@   props C13
+//@ end
+
+//@ func clientTrackProcessorMPEGTS.push
+//@   props C13
+//@   requires ctx != nil
+//@ end
+
+//@ func clientStreamProcessorMPEGTS.onPartProcessorDone
+//@   props C13
+//@   requires ctx != nil
+//@   ensures calls("send.clientStreamProcessorMPEGTS.chTrackProcessorDone") + calls("recv") == 1
+//@ end
+
+// end of segment: one end marker (nil) per track processor, then one completion signal awaited per track
+// processor (more would wedge the stream processor, fewer would let the next segment overtake this one)
+//@ func clientStreamProcessorMPEGTS.joinTrackProcessors
+//@   props C13
+//@   requires ctx != nil && forall(k, has(p.trackProcessors, k) ==> p.trackProcessors[k] != nil)
+//@   loop 1 invariant 0 <= iterpos() && iterpos() <= iterlen() && calls("clientTrackProcessorMPEGTS.push") == iterpos()
+//@   loop 1 invariant calls("recv") == 0 && calls("recv.clientStreamProcessorMPEGTS.chTrackProcessorDone") == 0
+//@   loop 2 invariant 0 <= iterpos() && iterpos() <= iterlen() && calls("recv.clientStreamProcessorMPEGTS.chTrackProcessorDone") == iterpos()
+//@   loop 2 invariant calls("recv") == 0 && calls("clientTrackProcessorMPEGTS.push") == len(p.trackProcessors)
+//@   atcall clientTrackProcessorMPEGTS.push arg2 == nil
+//@   ensures (result == nil && calls("recv") == 0) ==> (calls("clientTrackProcessorMPEGTS.push") == len(p.trackProcessors)
+//@        && calls("recv.clientStreamProcessorMPEGTS.chTrackProcessorDone") == len(p.trackProcessors))
+//@   ensures calls("recv.clientStreamProcessorMPEGTS.chTrackProcessorDone") <= len(p.trackProcessors)
+//@ end
+
+// a queued unit is delivered exactly once, unchanged; the end-of-segment marker (nil) produces exactly one
+// completion signal and no delivery
+//@ func clientTrackProcessorMPEGTS.process
+//@   props C10 C13
+//@   requires t.track != nil && t.streamProcessor != nil && ctx != nil
+//@   requires t.track.track != nil && t.track.onData != nil && t.track.track.ClockRate > 0
+//@   modifies t.track.lastAbsoluteTime
+//@   ensures entry == nil ==> (result == nil && calls("clientStreamProcessorMPEGTS.onPartProcessorDone") == 1 && calls("clientTrack.handleData") == 0)
+//@   ensures entry != nil ==> (calls("clientStreamProcessorMPEGTS.onPartProcessorDone") == 0 && calls("clientTrack.handleData") == 1
+//@        && callarg("clientTrack.handleData", 0, 0) == t.track && callarg("clientTrack.handleData", 0, 2) == entry.pts
+//@        && callarg("clientTrack.handleData", 0, 3) == entry.dts && callarg("clientTrack.handleData", 0, 4) == entry.ntp
+//@        && callarg("clientTrack.handleData", 0, 5) == entry.data)
+//@ end
+
+// the TS reader calls back into processSample for every unit it demuxes: anything reachable may change
+//@ func ext:mpegts.Reader.Read
+//@   modifies *
+//@ end
+
+// a segment is demuxed to its end, must contain data of the leading track (otherwise the stream ends with an
+// error rather than leaving the other tracks waiting for a time origin), and is then joined exactly once;
+// the end-of-stream marker never touches the reader
+//@ func clientStreamProcessorMPEGTS.processSegment
+//@   props C13
+//@   nosafety
+//@   noframe
 //@   nocallpre
-//@   requires nolocks()
+//@   requires ctx != nil
+//@   modifies *
+//@   loop 1 invariant calls("clientStreamProcessorMPEGTS.joinTrackProcessors") == 0 && seg != nil
+//@   ensures seg == nil ==> (result != nil && calls("mpegts.Reader.Read") == 0 && calls("clientStreamProcessorMPEGTS.joinTrackProcessors") == 0)
+//@   ensures (seg != nil && result == nil) ==> (p.leadingTrackFound && calls("clientStreamProcessorMPEGTS.joinTrackProcessors") == 1 && calls("mpegts.Reader.Read") >= 1)
+//@   reachable seg != nil && result == nil
+//@ end
+
+//@ pred leadConvM(p *clientStreamProcessorMPEGTS) := p.client.(*Client).leadingTimeConv != nil && is(p.client.(*Client).leadingTimeConv, *clientTimeConvMPEGTS)
+//@   && ref(p.client.(*Client).leadingTimeConv) != 0
+//@ pred streamProcM(p *clientStreamProcessorMPEGTS) := p.client != nil && is(p.client, *Client) && ref(p.client) != 0 && p.rp != nil
+
+//@ func clientStreamProcessorMPEGTS.initializeReader$2
+//@   props C10 C13
+//@   noframe
+//@   nocallpre
+//@   requires nolocks() && ctx != nil && p != nil && streamProcM(p) && p.curSegment != nil && track != nil
+//@   requires p.trackProcessors != nil ==> leadConvM(p)
+//@   requires trackProc != nil ==> p.trackProcessors != nil
 //@   ensures calls("clientTimeConvMPEGTS.setNTP") >= 1 ==> isLeadingTrack
 //@   ensures calls("clientTimeConvMPEGTS.setLeadingNTPReceived") >= 1 ==> isLeadingTrack
-//@   ensures calls("clientTimeConvMPEGTS.setNTP") <= 1
+//@   ensures calls("clientTimeConvMPEGTS.setNTP") <= 1 && calls("clientTrackProcessorMPEGTS.push") <= 1
+//@   ensures calls("clientTimeConvMPEGTS.setNTP") == 1 ==> (old(p.curSegment.dateTime) != nil && old(!p.dateTimeProcessed) && p.isLeading
+//@        && callarg("clientTimeConvMPEGTS.setNTP", 0, 1) == old(*p.curSegment.dateTime)
+//@        && callarg("clientTimeConvMPEGTS.setNTP", 0, 2) == callres("clientTimeConvMPEGTS.convert", 1))
+//@   ensures (calls("clientTrackProcessorMPEGTS.push") == 1 && old(!p.dateTimeProcessed) && p.isLeading && isLeadingTrack && old(p.curSegment.dateTime) != nil) ==> calls("clientTimeConvMPEGTS.setNTP") == 1
+//@   ensures calls("clientTrackProcessorMPEGTS.push") == 1 ==> (calls("clientTimeConvMPEGTS.convert") == 2 && calls("clientTimeConvMPEGTS.getNTP") == 1
+//@        && callarg("clientTimeConvMPEGTS.convert", 0, 1) == rawPTS && callarg("clientTimeConvMPEGTS.convert", 1, 1) == rawDTS
+//@        && callarg("clientTimeConvMPEGTS.getNTP", 0, 2) == callres("clientTimeConvMPEGTS.convert", 1))
+//@   atcall clientTrackProcessorMPEGTS.push arg2 != nil && arg2.data == data && arg2.pts == callres("clientTimeConvMPEGTS.convert", 0)
+//@        && arg2.dts == callres("clientTimeConvMPEGTS.convert", 1) && arg2.ntp == callres("clientTimeConvMPEGTS.getNTP", 0)
+//@   ensures result == nil ==> (calls("clientTrackProcessorMPEGTS.push") == 1 || !has(p.trackProcessors, track.track) || p.trackProcessors[track.track] == nil)
+//@   ensures isLeadingTrack ==> p.leadingTrackFound
+//@   reachable result == nil && calls("clientTimeConvMPEGTS.setNTP") == 1 && calls("clientTrackProcessorMPEGTS.push") == 1
+//@   reachable result == nil && calls("clientStreamProcessorMPEGTS.initializeTrackProcessors") == 1 && calls("clientTrackProcessorMPEGTS.push") == 1
+//@ end
+
+// the reader's callbacks forward every unit to processSample; an audio unit's DTS is its PTS
+//@ func clientStreamProcessorMPEGTS.initializeReader$3
+//@   props C10
+//@   nosafety
+//@   noframe
+//@   ensures calls("dyncall") == 1 && callarg("dyncall", 0, 0) == pts && callarg("dyncall", 0, 1) == dts && callarg("dyncall", 0, 2) == ref(au)
+//@ end
+
+//@ func clientStreamProcessorMPEGTS.initializeReader$4
+//@   props C10
+//@   nosafety
+//@   noframe
+//@   ensures calls("dyncall") == 1 && callarg("dyncall", 0, 0) == pts && callarg("dyncall", 0, 1) == pts && callarg("dyncall", 0, 2) == ref(aus)
 //@ end
 
 //@ func clientStreamProcessorMPEGTS.initializeTrackProcessors
-//@   props C10
-//@   nosafety
+//@   props C10 C13
 //@   noframe
 //@   nocallpre
-//@   modifies *
+//@   requires streamProcM(p) && ctx != nil && forall(i, (0 <= i && i < len(p.clientStreamTracks)) ==> p.clientStreamTracks[i] != nil)
+//@   loop 1 invariant p.trackProcessors != nil && streamProcM(p) && p.isLeading == old(p.isLeading) && p.client == old(p.client)
+//@   loop 1 invariant p.leadingTrackFound == old(p.leadingTrackFound) && p.dateTimeProcessed == old(p.dateTimeProcessed) && p.curSegment == old(p.curSegment)
+//@   loop 1 invariant leadConvM(p) && (p.isLeading ==> p.client.(*Client).leadingTimeConv.(*clientTimeConvMPEGTS).startDTS == dts)
+//@   loop 1 invariant forall(i, (0 <= i && i < len(p.clientStreamTracks)) ==> p.clientStreamTracks[i] != nil)
+//@   modifies p.trackProcessors, clientTrackProcessorMPEGTS.queue, Client.leadingTimeConv, clientTrack.startRTC
+//@   ensures result == nil ==> (p.trackProcessors != nil && leadConvM(p))
+//@   ensures (result == nil && p.isLeading) ==> p.client.(*Client).leadingTimeConv.(*clientTimeConvMPEGTS).startDTS == dts
+//@   ensures p.leadingTrackFound == old(p.leadingTrackFound) && p.dateTimeProcessed == old(p.dateTimeProcessed) && p.curSegment == old(p.curSegment)
+//@   ensures p.isLeading == old(p.isLeading) && p.client == old(p.client)
 //@ end
 
 // ---------------------------------------------------------------------------------------
@@ -1212,15 +1370,22 @@ package gohlslib
 //@   requires ctx != nil
 //@ end
 
+// channel operations raise ghost events ("recv.T.f" / "send.T.f" for a channel kept in field f of T, plain
+// "recv" for the context's Done channel): the join consumes exactly as many completion signals as it is told
+// to unless the context ends, and a completion produces exactly one signal unless the context ends
 //@ func clientStreamProcessorFMP4.joinTrackProcessors
 //@   props C13
-//@   requires ctx != nil
-//@   ensures result == nil
+//@   requires ctx != nil && partTrackCount >= 0
+//@   loop 1 invariant 0 <= i && i <= partTrackCount && calls("recv") == 0 && calls("recv.clientStreamProcessorFMP4.chPartTrackProcessed") == i
+//@   ensures result == nil && calls("recv") <= 1
+//@   ensures calls("recv") == 0 ==> calls("recv.clientStreamProcessorFMP4.chPartTrackProcessed") == partTrackCount
+//@   ensures calls("recv.clientStreamProcessorFMP4.chPartTrackProcessed") <= partTrackCount
 //@ end
 
 //@ func clientStreamProcessorFMP4.onPartTrackProcessed
 //@   props C13
 //@   requires ctx != nil
+//@   ensures calls("send.clientStreamProcessorFMP4.chPartTrackProcessed") + calls("recv") == 1
 //@ end
 
 //@ func clientStreamProcessorFMP4.initialize
@@ -1529,14 +1694,21 @@ package gohlslib
 
 // size limit (C18) and timestamps (C01): the unit is handed to the TS writer exactly once with 90 kHz
 // timestamps, or rejected with no state change when it would exceed the limit
+// payload bytes of a unit = sum of the lengths of its NALUs / access units (ghost prefix sum)
+//@ ufun paylen(a [][]byte, n int) int
+//@ axiom paylen_zero forall_as(a, [][]byte, paylen(a, 0) == 0)
+//@ axiom paylen_def forall_as(a, [][]byte, forall(n, n >= 1 ==> paylen(a, n) == paylen(a, n - 1) + len(a[n - 1])))
+
 //@ func muxerSegmentMPEGTS.writeH264
 //@   props C01 C18
 //@   requires track != nil && track.Track != nil && track.ClockRate > 0 && s.mpegtsWriter != nil && dts <= pts
 //@   requires s.size <= s.segmentMaxSize && s.segmentMaxSize < 4611686018427387904
 //@   requires forall(i, (0 <= i && i < len(au)) ==> len(au[i]) < 1099511627776) && len(au) < 1048576
 //@   modifies s.size, s.endDTS
-//@   loop 1 invariant ri < len(au) && 0 <= size && size <= (ri + 1) * 1099511627776
+//@   loop 1 invariant ri < len(au) && 0 <= size && size <= (ri + 1) * 1099511627776 && size == paylen(au, ri + 1)
 //@   ensures s.size <= s.segmentMaxSize
+//@   ensures [C18] calls("mpegts.Writer.WriteH264") == 0 <==> old(s.size) + paylen(au, len(au)) > s.segmentMaxSize
+//@   ensures [C18] result == nil ==> s.size == old(s.size) + paylen(au, len(au))
 //@   ensures calls("mpegts.Writer.WriteH264") <= 1
 //@   ensures calls("mpegts.Writer.WriteH264") == 0 ==> (result != nil && s.size == old(s.size) && s.endDTS == old(s.endDTS))
 //@   ensures calls("mpegts.Writer.WriteH264") == 1 ==> (callarg("mpegts.Writer.WriteH264", 0, 1) == track.mpegtsTrack
@@ -1547,13 +1719,15 @@ package gohlslib
 //@ end
 
 //@ func muxerSegmentMPEGTS.writeMPEG4Audio
-//@   props C01 C18
+//@   props C01 C02 C18
 //@   requires track != nil && track.Track != nil && track.ClockRate > 0 && s.mpegtsWriter != nil
 //@   requires s.size <= s.segmentMaxSize && s.segmentMaxSize < 4611686018427387904
 //@   requires forall(i, (0 <= i && i < len(aus)) ==> len(aus[i]) < 1099511627776) && len(aus) < 1048576
 //@   modifies s.size, s.endDTS, s.audioAUCount
-//@   loop 1 invariant ri < len(aus) && 0 <= size && size <= (ri + 1) * 1099511627776
+//@   loop 1 invariant ri < len(aus) && 0 <= size && size <= (ri + 1) * 1099511627776 && size == paylen(aus, ri + 1)
 //@   ensures s.size <= s.segmentMaxSize
+//@   ensures [C18] calls("mpegts.Writer.WriteMPEG4Audio") == 0 <==> old(s.size) + paylen(aus, len(aus)) > s.segmentMaxSize
+//@   ensures [C18] result == nil ==> s.size == old(s.size) + paylen(aus, len(aus))
 //@   ensures calls("mpegts.Writer.WriteMPEG4Audio") <= 1
 //@   ensures calls("mpegts.Writer.WriteMPEG4Audio") == 0 ==> (result != nil && s.size == old(s.size) && s.endDTS == old(s.endDTS) && s.audioAUCount == old(s.audioAUCount))
 //@   ensures calls("mpegts.Writer.WriteMPEG4Audio") == 1 ==> (callarg("mpegts.Writer.WriteMPEG4Audio", 0, 1) == track.mpegtsTrack
